@@ -116,6 +116,28 @@ def analyse_pattern(pat, mode):
     return True, "[A-Za-z0-9_.]+ anchored"
 
 
+def _stdlib_import(st):
+    """`import importlib` / `from collections import deque` inside a function: a fixed standard-library module, imported late"""
+    import sys as _sys
+    std = getattr(_sys, "stdlib_module_names", frozenset())
+    if isinstance(st, ast.Import):
+        return all(al.name.split(".")[0] in std for al in st.names)
+    return st.level == 0 and bool(st.module) and st.module.split(".")[0] in std
+
+
+def _fixed_module_name(prog, fi, g, n, e):
+    """the expression is a string constant, or an item of a module-level dictionary whose values are all string constants"""
+    for a in prov.value_alts(prov.origin(g, n, e)):
+        if a[0] == "const" and isinstance(a[1], str):
+            continue
+        if a[0] == "item" and a[1][0] == "global":
+            val = prog.modules[fi.module].assigns.get(a[1][1]) if fi.module in prog.modules else None
+            if isinstance(val, ast.Dict) and val.values and all(isinstance(v, ast.Constant) and isinstance(v.value, str) for v in val.values):
+                continue
+        return False
+    return True
+
+
 def check(ck):
     prog = ck.prog
     # ---- C08.1 gates ------------------------------------------------------------------------------
@@ -184,11 +206,14 @@ def check(ck):
                 nm = call_name(c)
                 if nm in DYNAMIC or (isinstance(c.func, ast.Attribute) and dump(c.func.value) in ("importlib", "pickle", "marshal")):
                     n3 += 1
+                    if fi.fq != "jsonclass.load" and nm in ("import_module", "__import__") and c.args and _fixed_module_name(prog, fi, g, n, c.args[0]):
+                        ck.ok("C08.3", "%s: %s(...)" % (q.fn(fi), nm), "imports a module named by a constant of the package (nothing received decides it)", q.loc(fi, n))
+                        continue
                     ck.require(fi.fq == "jsonclass.load", "C08.3", "%s: %s(...)" % (q.fn(fi), nm), "confined to jsonclass.load",
                                "the dynamic-code primitive `%s` is used outside jsonclass.load, where no name validation dominates it" % dump(c.func),
                                q.loc(fi, n))
         for st in ast.walk(fi.node):
-            if isinstance(st, (ast.Import, ast.ImportFrom)) and fi.module != "jsonlib":
+            if isinstance(st, (ast.Import, ast.ImportFrom)) and fi.module != "jsonlib" and not _stdlib_import(st):
                 ck.bad("C08.3", "%s: local import statement" % q.fn(fi), "an import statement inside a function outside jsonlib", q.loc(fi, st))
     if n3 < 1:
         raise AnalysisError("anchor vanished: __import__ in jsonclass.load")
@@ -258,6 +283,8 @@ def check(ck):
                 (any(isinstance(a, ast.Starred) for a in c.args) or any(k.arg is None for k in c.keywords))
             if ctor:
                 sensitive.append((n, "constructor call %s(...)" % nm))
+            elif nm == "import_module":
+                sensitive.append((n, "__import__(...) [importlib.import_module]"))
             elif nm in ("__import__", "setattr") or (nm == "getattr" and len(c.args) >= 2 and not isinstance(c.args[1], ast.Constant)):
                 sensitive.append((n, "%s(...)" % nm))
         for e in node_exprs(n):
